@@ -27,7 +27,10 @@ PROP = dict(
           "send-complete and the receive callback, sends before enable() (half of the cases start disabled), disable()/enable() "
           "cycles, peer reads of 1/7/100/1 Ki/4 Ki/64 Ki/all bytes (or none for many steps: full kernel buffer, partial writes, "
           "EAGAIN), peer writes, receive threshold in {0,1,7,4096} with the callback consuming nothing / 1 byte / half / all but one / "
-          "everything / a mix, re-configuration of the receive callback, 0-4 loop passes between steps; one close event in ~45% of "
+          "everything / a mix, re-configuration of the receive callback, 0-4 loop passes between steps; buffer housekeeping in 3/5 of the cases (never / sometimes / "
+          "often per case): shrinkRecvBuffer() / Buffer::shrink() from inside the receive callback right after a partial consumption, from "
+          "the send-complete callback and between steps, shrinkSendBuffer() from both callbacks and between sends while the send queue is "
+          "partly drained and non-empty, and receive callbacks that copy (construct / assign) the Buffer they are given; one close event in ~45% of "
           "the cases: peer shutdown(SHUT_WR), peer close() after draining, peer close() with unread data (reset), harness-side "
           "disable()+destroy outside a callback / inside the receive / send-complete / read-zero callback. Then the peer reads "
           "everything and the loop is pumped until every stream is complete or a stall is established. "
@@ -39,7 +42,8 @@ PROP = dict(
           "and from inside the receive, send-complete and disconnected callbacks and shutdown(SHUT_WR) once everything is flushed. "
           "Monitors: raw peer - every byte read equals f at the next offset and never exceeds what send() accepted; receive callback "
           "- buffer content equals f[consumed, consumed+readable), never fewer bytes than presented before, at least the threshold, "
-          "nothing after a reported close; send-complete - bytes in the peer's hands + bytes in the kernel queues (FIONREAD/SIOCOUTQ) "
+          "nothing after a reported close; shrink and copy - the unread window of the receive buffer and of its copy is byte-identical to "
+          "f[consumed, ...) immediately afterwards (a shrunk send queue is judged by what the raw peer then reads); send-complete - bytes in the peer's hands + bytes in the kernel queues (FIONREAD/SIOCOUTQ) "
           ">= bytes accepted by send() so far; close report - at most once, only after the peer closed, and for orderly closes only "
           "after all preceding bytes are in the receive buffer and presented (or fewer than the threshold remain); end of case - "
           "every stream whose two ends are still up is complete, else a stall is reported only if the kernel queues of the link are "
@@ -88,5 +92,7 @@ PROP = dict(
                                "peer_half_close", "peer_clean_close", "peer_reset_close",
                                "teardown_outside_cb", "teardown_in_receive_cb", "teardown_in_send_complete_cb", "teardown_in_close_cb",
                                "tcp_server_connected", "tcp_client_connected", "tcp_client_reconnected",
-                               "tcp_acceptor_connected", "tcp_connector_connected", "server_stop_start", "tbox_half_close"]},
+                               "tcp_acceptor_connected", "tcp_connector_connected", "server_stop_start", "tbox_half_close",
+                               "shrink_recv_with_unread_behind_consumed_prefix", "shrink_send_with_partly_drained_queue",
+                               "recv_buffer_copied_in_callback", "recv_buffer_copied_behind_consumed_prefix"]},
 )
